@@ -3,7 +3,7 @@
 From Coq Require Import Reals List String.
 From PUN Require Import Base.Num Model.Interval Model.Pbox Model.PboxArith Gen.GenDispatch Model.Dispatch
   Proofs.ListR Proofs.IntervalOps Proofs.Hier Proofs.Dispatch.
-From PUN Require Import Model.PboxArith Gen.GenGlue Proofs.Glue.
+From PUN Require Import Model.PboxArith Gen.GenGlue Proofs.Glue Proofs.HierScale.
 Import ListNotations.
 Open Scope R_scope.
 
@@ -51,6 +51,20 @@ Theorem C07_shift_frechet steps plo phi a (q : list R) : wfp a -> List.length q 
   padd RN steps plo phi DF (embed steps a) (q, q) = Ok (map (Rplus (fst a)) q, map (Rplus (snd a)) q).
 Proof. exact (shift_frechet steps plo phi a q). Qed.
 Print Assumptions C07_shift_frechet.
+(* interval x precise distribution: a non-negative interval times a non-negative precise distribution is the distribution scaled by the
+   interval, under perfect, opposite and no (Frechet) dependence assumption (Frechet: upper ends strictly positive, which routes the product
+   to the classic kernel) *)
+Theorem C07_scale_perfect steps plo phi a (q : list R) : wfp a -> 0 <= fst a -> List.length q = steps -> Rsorted q -> Forall (fun x => 0 <= x) q ->
+  pmul RN steps plo phi DP (embed steps a) (q, q) = Ok (map (Rmult (fst a)) q, map (Rmult (snd a)) q).
+Proof. exact (scale_perfect steps plo phi a q). Qed.
+Theorem C07_scale_opposite steps plo phi a (q : list R) : wfp a -> 0 <= fst a -> List.length q = steps -> Rsorted q -> Forall (fun x => 0 <= x) q ->
+  pmul RN steps plo phi DO (embed steps a) (q, q) = Ok (map (Rmult (fst a)) q, map (Rmult (snd a)) q).
+Proof. exact (scale_opposite steps plo phi a q). Qed.
+Theorem C07_scale_frechet steps plo phi a (q : list R) : wfp a -> 0 <= fst a -> 0 < snd a -> List.length q = steps -> Rsorted q ->
+  Forall (fun x => 0 <= x) q -> 0 < last q 0 ->
+  pmul RN steps plo phi DF (embed steps a) (q, q) = Ok (map (Rmult (fst a)) q, map (Rmult (snd a)) q).
+Proof. exact (scale_frechet steps plo phi a q). Qed.
+Print Assumptions C07_scale_frechet.
 (* operator forwarding of Dempster-Shafer structures (table translated from mixins.py on every run): every forward dunder computes
    self op other and every reflected dunder other op self on the p-box views, for any p-box calculus `bin` *)
 Theorem C07_dss_forward (V : Type) (bin : string -> V -> V -> V) fwd refl : In (fwd, refl) refl_names ->
